@@ -280,8 +280,8 @@ func (e *Engine) unknownCall(st *State, what string) {
 	if e.quiet == 0 {
 		e.unmod[what] = true
 	}
-	for k, t := range st.heap {
-		st.heap[k] = e.fresh(t.Sort, "havocM:"+k)
+	for _, k := range sortedHeapKeys(st.heap) {
+		st.heap[k] = e.fresh(st.heap[k].Sort, "havocM:"+k)
 	}
 	e.nbase++
 	st.base = fmt.Sprintf("M%d:", e.nbase)
@@ -564,9 +564,9 @@ func (e *Engine) mapHavoc(st *State, m Scalar) {
 		e.mapLenSet(st, m.Ty, m.T, nl)
 	}
 	hk, vk := mapKeys(mt)
-	for k, t := range st.heap {
+	for _, k := range sortedHeapKeys(st.heap) {
 		if k == hk || strings.HasPrefix(k, vk) {
-			st.heap[k] = e.fresh(t.Sort, "havocmap")
+			st.heap[k] = e.fresh(st.heap[k].Sort, "havocmap")
 		}
 	}
 }
